@@ -11,7 +11,7 @@
 (*   S: start -sendQuery-> flushq -flush-> colinfo|input -> encblock       *)
 (*        -encodeBlock-> flushr -flush-> cb -OnInput-> encblock|term       *)
 (*        -blank block-> finalflush -flush-> ret -> exit                   *)
-(*   R: loop -ctx check, packet(), handle-> loop|info|read|ret -> exit     *)
+(*   R: loop -ctx check, packet(), handle-> loop|info|read|ret -close(done)-> done -> exit *)
 (*        (read = blocked in conn.Read; info = before the colInfo select)  *)
 (*   W: wait -(done closed)-> cancelQuery or nothing -> ret -> exit        *)
 (*                                                                         *)
@@ -302,13 +302,20 @@ R_Info ==
   /\ \/ /\ info.buf = 0 /\ info' = [info EXCEPT !.buf = 1] /\ RStay
      \/ /\ CtxDead /\ RRet("ctx") /\ UNCHANGED info
   /\ NoCb /\ UNCHANGED <<s2c, gotExc, seenRows>> /\ RU
-R_Exit ==
-  /\ rpc = "ret" /\ rpc' = "exit" /\ done' = TRUE /\ ExitOf("R")
+(* The receiver's deferred calls close colInfo and done BEFORE its function  *)
+(* returns to the errgroup: the cancel-watch can run in between and sees a   *)
+(* context that is not cancelled yet.                                        *)
+R_Done ==
+  /\ rpc = "ret" /\ rpc' = "done" /\ done' = TRUE
   /\ info' = IF cfg.scn # "select" /\ cfg.needInfo THEN [info EXCEPT !.cl = TRUE] ELSE info
-  /\ UNCHANGED <<cfg, spc, wpc, rerr, lateFault, pend, c2s, s2c, sidx, caller, closed, connClosed, gotExc, ver, rows,
+  /\ UNCHANGED <<cfg, spc, wpc, rerr, once, firstErr, gctx, lateFault, pend, c2s, s2c, sidx, caller, closed, connClosed, gotExc,
+                 ver, rows, tail, round, cbS, cbR, seenRows, cblog, call, phase, wbroken, cancelAt, cancelClean>>
+R_Exit ==
+  /\ rpc = "done" /\ rpc' = "exit" /\ ExitOf("R")
+  /\ UNCHANGED <<cfg, spc, wpc, rerr, lateFault, pend, c2s, s2c, sidx, caller, closed, connClosed, gotExc, ver, rows, done, info,
                  tail, round, cbS, cbR, seenRows, cblog, call, phase, wbroken, cancelAt, cancelClean>>
 
-ReceiverNext == R_Begin \/ R_Resume \/ R_Timeout \/ R_Info \/ R_Exit
+ReceiverNext == R_Begin \/ R_Resume \/ R_Timeout \/ R_Info \/ R_Done \/ R_Exit
 
 -----------------------------------------------------------------------------
 (* Cancel-watch: after done, cancel the query unless it ended by itself or  *)
@@ -316,11 +323,14 @@ ReceiverNext == R_Begin \/ R_Resume \/ R_Timeout \/ R_Info \/ R_Exit
 (* buffer (best effort) and always closes the client.                       *)
 W_Act ==
   /\ wpc = "wait" /\ done /\ wpc' = "ret"
-  /\ IF CtxDead /\ ~gotExc
+  /\ IF (CtxDead \/ (Fixed /\ rerr["R"] # "nil")) /\ ~gotExc    \* F-19: the pinned code looked at the context only
        THEN /\ IF connClosed \/ wbroken THEN UNCHANGED <<c2s, wbroken>>
                ELSE IF Breaks(1) THEN wbroken' = TRUE /\ UNCHANGED c2s
                ELSE c2s' = Append(c2s, Tok("cancel", 0)) /\ UNCHANGED wbroken
-            /\ closed' = TRUE /\ connClosed' = TRUE /\ Ret("W", "ctx")
+            \* what the watcher returns: the context's error joined with cancelQuery's (write and Close errors)
+            /\ closed' = TRUE /\ connClosed' = TRUE
+            /\ Ret("W", IF CtxDead THEN "ctx" ELSE IF closed THEN "closed"
+                         ELSE IF connClosed \/ wbroken \/ Breaks(1) THEN "err" ELSE "nil")
        ELSE /\ Ret("W", "nil") /\ UNCHANGED <<c2s, closed, connClosed, wbroken>>
   /\ UNCHANGED <<cfg, spc, rpc, once, pend, s2c, sidx, caller, gctx, firstErr, gotExc, done, info, ver, rows, tail,
                  round, cbS, cbR, seenRows, cblog, call, phase, cancelAt, cancelClean>>
@@ -382,7 +392,7 @@ NextReq ==
 Log(x) == hist' = Append(hist, x)
 Next ==
   \/ SenderNext /\ Log("S")
-  \/ (R_Begin \/ R_Resume \/ R_Info \/ R_Exit) /\ Log("R")
+  \/ (R_Begin \/ R_Resume \/ R_Info \/ R_Done \/ R_Exit) /\ Log("R")
   \/ R_Timeout /\ Log("T")
   \/ WatchNext /\ Log("W")
   \/ ServerSend /\ Log("V")
@@ -394,7 +404,7 @@ Next ==
   \/ NextReq /\ Log("Next")
 
 Spec == Init /\ [][Next]_vars
-Fair == /\ WF_View(SenderNext) /\ WF_View(R_Begin \/ R_Resume \/ R_Info \/ R_Exit) /\ WF_View(R_Timeout)
+Fair == /\ WF_View(SenderNext) /\ WF_View(R_Begin \/ R_Resume \/ R_Info \/ R_Done \/ R_Exit) /\ WF_View(R_Timeout)
         /\ WF_View(WatchNext) /\ WF_View(DoReturn) /\ WF_View(NextReq) /\ \A x \in Roles : WF_View(G_Once(x))
 (* A silent server and a live caller never end Do; what "finite read        *)
 (* timeout" and "cancellation" buy is expressed by fairness of R_Timeout    *)
